@@ -80,12 +80,13 @@ ADD = {
  'C10': ' The raise fault rotates Exception / KeyboardInterrupt / BaseException classes; ASCII-locale child replay (default text encoding); TLC-validated random histories.',
  'C11': ' Also inside open_array() contexts, where the spec says what the open map allows (WriteThroughOpenMap is modelled; ReadOnlyAlways must be violated in the model).',
  'C12': ' Several live handles on one directory: every state of spec/Shared.tla (also inconsistent ones) is materialised and a stratified sample of its edges executed; TLC checks Safe/ViewIsPrefix/ReadsCurrent and that the named deviations are real.',
- 'C13': ' Multi-key updates (updateall), rotating unserialisable kinds (incl. undecodable bytes), the same edges on RaggedArrays, creation-time table (spec/MetaCreate.tla), TLC-validated random histories and the repository metadata tests as traces.',
+ 'C13': ' Multi-key updates (updateall), rotating unserialisable kinds (incl. undecodable bytes), the same edges on RaggedArrays, creation-time table (spec/MetaCreate.tla), TLC-validated random histories and the repository metadata tests as traces. Value pairs that Python calls equal but JSON distinguishes (1/True, False/0, 2/2.0, 5/[5]) are among the rotating value sets: replacing one by the other is a change.',
  'C14': ' Chunk parameters also as NumPy integers of several widths (refusal or the int behaviour).',
  'C16': ' Call form staleobject: a handle whose directory was deleted and re-created as something else.',
  'C17': ' open() audit events tell in-place rewrites from truncating ones (overlay torn variants); metadata value pairs of equal text length; multi-key updates; crash states opened r and r+.',
+ 'C19': ' Generators and contexts are started with accessmode None / r / r+ (cmode in Mmap.tla: the first user decides the mode of the shared map; MapStable: a map that users hold is never exchanged).',
  'C18': ' Paths also spelled through a symbolic link and .. with a valid decoy at the lexically simplified place.',
- 'C20': ' Round trips go through read_txt/read_jsondict, with carriage returns, and are repeated in a child interpreter with an ASCII default encoding; the worker has created and deleted arrays before.',
+ 'C20': ' Round trips go through read_txt/read_jsondict, with carriage returns, and are repeated in a child interpreter with an ASCII default encoding; the worker has created and deleted arrays before. spec/UserFiles.tla: the namespace of a DataDir as a state machine (write_txt/write_jsondict/write_jsonfile, update_jsondict, delete_files with lists, open_file append, DataDir.copy, sha256checksums; TLC checks ProtectedNeverChanges, RefusalChangesNothing, OnlyNamed, CopyFaithful, CopyIndependent and a vacuity control), its graph replayed edge by edge with the user files decoded independently and a byte snapshot of every protected file after each call.',
 }
 def main():
     props = [json.loads(l)['id'] for l in open(os.path.join(HERE, 'properties.jsonl'))]
